@@ -32,6 +32,9 @@ fn build_base(w: &mut World, farms: u8) {
     let pma = w.pool_manager.clone();
     let o = w.exec(&a, &pma, &pm::ExecuteMsg::ProvideLiquidity { liquidity_max_slippage: None, swap_max_slippage: None, receiver: None, pool_identifier: "o.a".into(), unlocking_duration: None, lock_position_identifier: None }, &[coin(10u128.pow(31), "uom"), coin(10u128.pow(31), "uusd")]);
     assert!(o.is_ok(), "MACHINERY: big LP {}", o.err_text());
+    // another user's LP sits in the farm manager, so an over-payment would be taken from it instead of failing
+    let o = apply(w, &FuOp::CreatePos { u: B, lp: 0, amount: 5_000_000, dur: 100 * DAY, id: Some("other".into()), recv: None });
+    assert!(o.is_ok(), "MACHINERY: B position {}", o.err_text());
     let fee = ("uom".to_string(), 1000u128);
     let mk = |w: &mut World, u: usize, s: u64, e: u64, id: &str| {
         let o = apply(w, &farm_op(&fee, u, 0, Some(s), Some(e), ("uusdc", 1000 * (e - s) as u128), Some(id)));
